@@ -35,6 +35,8 @@ pub enum TimedOp {
     Partition { ms: u64, both: bool },
     Rebind { full: bool },
     Close { client: bool, code: u64 },
+    /// the endpoint's process is stopped for a while: no datagram and no timer reaches it
+    Suspend { client: bool, ms: u64 },
 }
 
 #[derive(Clone, Debug)]
@@ -328,6 +330,7 @@ impl Basic {
                 5 => TimedOp::SetLinkMtu(*w.ch.pick("op.mtu", &[1500usize, 1200, 1250, 1350, 1452, 2000, 9000])),
                 6 => TimedOp::Partition { ms: w.ch.range_log("op.part_ms", 1, 4000), both: w.ch.chance("op.part_both", 1, 2) },
                 7 => TimedOp::Rebind { full: w.ch.chance("op.rebind_full", 1, 2) },
+                9 => TimedOp::Suspend { client, ms: w.ch.range_log("op.suspend_ms", 1, 5000) },
                 _ => TimedOp::Close { client, code: w.ch.range("op.close_code", 0, 100) },
             };
             ops.push((at, op));
@@ -443,7 +446,7 @@ impl Basic {
     }
 
     fn do_op(&mut self, w: &mut World, op: TimedOp) {
-        w.sig_mix(0x09 + match &op { TimedOp::KeyUpdate { .. } => 1, TimedOp::Ping { .. } => 2, TimedOp::SetRecvWindow { .. } => 3, TimedOp::SetSendWindow { .. } => 4, TimedOp::SetMaxStreams { .. } => 5, TimedOp::SetLinkMtu(_) => 6, TimedOp::Partition { .. } => 7, TimedOp::Rebind { .. } => 8, TimedOp::Close { .. } => 9 });
+        w.sig_mix(0x09 + match &op { TimedOp::KeyUpdate { .. } => 1, TimedOp::Ping { .. } => 2, TimedOp::SetRecvWindow { .. } => 3, TimedOp::SetSendWindow { .. } => 4, TimedOp::SetMaxStreams { .. } => 5, TimedOp::SetLinkMtu(_) => 6, TimedOp::Partition { .. } => 7, TimedOp::Rebind { .. } => 8, TimedOp::Close { .. } => 9, TimedOp::Suspend { .. } => 10 });
         w.logf(|| format!("op {:?}", op));
         match op {
             TimedOp::KeyUpdate { client } => {
@@ -526,6 +529,13 @@ impl Basic {
                         w.conn_mut(inc).ping();
                     }
                 }
+            }
+            TimedOp::Suspend { client, ms } => {
+                let node = if client { self.clients[0] } else { self.server };
+                let until = w.now + ms * MS;
+                let e = w.suspended.entry(node).or_insert(0);
+                *e = (*e).max(until);
+                w.faults.hit("node_suspended");
             }
             TimedOp::Close { client, code } => {
                 if let Some(inc) = self.pick_conn(w, client) {
